@@ -174,6 +174,7 @@ def present(values, fmt):
     if fmt in ("dict_str", "dict_int"):
         return d, None, d
     if fmt == "names":
+        d = NamedValues(d); d.names_list = list(nm)
         return list(nm), d.__getitem__, d
     raise ValueError(fmt)
 
